@@ -886,7 +886,8 @@ def rule_guard_extra(prop, repo):
             res = paths.simulate(d2, tb, paths.Evaluator(asg))
             if res.end != "return":
                 continue
-            odd = [v for a, v in asg.items() if a[0] == "bool" and a[1][0] == "call" and a[1][1].name == "is_odd"]
+            odd = [v for a, v in asg.items() if a[0] == "bool" and a[1][0] == "call" and a[1][1].name == "is_odd"] + \
+                  [1 - v for a, v in asg.items() if a[0] == "bool" and a[1][0] == "call" and a[1][1].name == "is_even"]      # the same question asked the other way round
             added = bool(res.called(lambda f: f.name == "add_with_carry"))
             halved = bool(res.called(lambda f: f.name == "div2"))
             if not odd or added != bool(odd[0]) or not halved:
